@@ -53,7 +53,7 @@ def prov_pipe(ctx):
     dd = [x for s in sts for e in T.stmt_exprs(s) for x in T.sx_calls(e, "decodation::decode_data")]
     ok = False
     if len(dd) == 1:
-        a = dd[0][2][0]
+        a = T.look_through(dd[0][2][0], T.let_values(sts))
         if a[0] == "call" and a[1].endswith("::index") and is_var(_strip_deref(a[2][0]), cwn):
             rt = adt_fields(a[2][1], "core::ops::RangeTo")
             ok = bool(rt) and is_num_data(rt.get("end"), sz)
@@ -246,7 +246,8 @@ def pad_path(ctx):
                     return None
                 return NotImplemented
             try:
-                T.Folder(f, env={"self#2": "SELF"}, on_call=on_call, effects=True).fold(body)
+                selfn = b["params"][0]["pat"]["name"] if b["params"] and b["params"][0].get("pat", {}).get("k") == "Bind" else "self"
+                T.Folder(f, env={selfn: "SELF"}, on_call=on_call, effects=True, local_calls=2).fold(body)
             except T.Trap as ex:
                 sink = "trap " + str(ex)
             except T.Undecidable as ex:
